@@ -70,6 +70,16 @@ CHECKS = {
    "Structured entries (all states, 0-200 header lines incl. UTF-8, control and non-UTF-8 bytes, every subset of body variants up to 2 MiB, profile names, filters, extreme clock values and lifetimes) are encoded, decoded and compared through the exported API (Get/Age/Fill for 6 Accept-Encoding values at +0,+1,+T,+T+1 s); on 200 valid records: truncation at every offset must error, bit flips, length-field edits, splices, random strings and crafted filter fields must not panic, hang (20 s) or allocate more than 32x input + 1 MiB (MemStats delta). A dead child is a verdict with the logged case index as witness.",
    "truncation of a bare response record is not judged; thorough tier multiplies batches (40) instead of coverage-guided fuzzing",
    "DESIGN.md 6/C09"),
+ "C12": ("inproc", "exploration",
+   "round-trip oracle with pike's, standard and independent (gzip CLI, python zlib, zstd CLI) decoders; crash/hang monitor in isolated child processes",
+   "pike's Gzip/Brotli at levels -1..12 plus out-of-range 99/-7 on lengths 0..64, powers of two +-1 up to 1 MiB and random lengths with random/text/runs/zero content; valid streams of all five formats from self-checked reference encoders (multi-member gzip, zstd CLI output, ratios beyond 200x for lz4 and far more for br/zst) must be restored exactly by pike's decoders; malformed streams (truncation incl. every offset of small streams, bit flips, header edits, random bytes, doubled streams) under a per-case watchdog in a child process.",
+   "a malformed stream decoding to some bytes without error is accepted; survival + output validity stand in for memory safety of the third-party assembly decoders",
+   "DESIGN.md 6/C12"),
+ "C10": ("inproc", "fault_enumeration",
+   "online monitor over client results + scripted store call log + hooked entry state, under per-call store fault injection",
+   "Every store call draws from {ok, not-found, error, delay, value truncated, random bytes, bit flip in header region / elsewhere, status field overwritten, empty} over histories of bursts, expiry, purge and eviction on a 16-entry cache with a healthy origin. Judged: always 200 with the key's intact body, hits only of still-valid versions, a memory-resident fresh hit never reads the store, an undecodable record yields an ordinary fetching miss, nobody stranded and no entry left fetching (hooked state at quiescence). Garbled values that still decode are classified by the harness decoding them itself and only taint the key.",
+   "well-formed-but-altered records cannot be detected without an integrity field (known finding class undetectable-corruption); a purge whose store delete failed is not judged afterwards",
+   "DESIGN.md 6/C10"),
 }
 ALL = ["C%02d" % i for i in range(1, 21)]
 NOT_BUILT_REASON = "no check is registered for this property yet (framework under construction; see DESIGN.md Appendix B build order)"
